@@ -96,6 +96,9 @@ def cases(tier, seed):
     # the starting thread has ended; a later thread is given its ident by the system (idents are recycled)
     for st, tt, mode in itertools.product((0, 1), (0, 1), ('lazy', 'direct')):
         out.append({'k': 'recycled', 'sys': st, 'thr': tt, 'mode': mode})
+    for how in ('two-agents-first-leaves-first', 'two-agents-second-leaves-first', 'restart-inside-pending', 'restart-from-another-thread', 'reentrant-start', 'restart-same-agent'):
+        for st, tt in itertools.product((0, 1), (0, 1)):
+            out.append({'k': 'lifecycle', 'how': how, 'sys': st, 'thr': tt})
     # a second start() / a shutdown() arriving while the first start() is still in progress (parked in a plugin's resource())
     for second in ('start', 'shutdown'):
         for st in (0, 1):
@@ -280,6 +283,137 @@ def recycled_case(ctx, desc):
                       f'{name(obs.get("late_after"))}, it is to have {name(want)}', desc)
 
 
+def _second_deep(w):
+    """A second agent in the same process, built the way the first one of the world is."""
+    import deep.api.deep as D
+    from deep.config import ConfigService
+    from deep.config.tracepoint_config import TracepointConfigService
+    return D.Deep(ConfigService(dict(w.custom), tracepoints=TracepointConfigService()))
+
+
+def lifecycle_case(ctx, desc):
+    """Sequences the round-5 hunters found: two agents in one process; a restart from inside a function with pending work; a restart from
+    another thread; start() entered again by the thread that is inside start(). After the last shutdown the hooks are what they were."""
+    from deepproto.proto.poll.v1.poll_pb2 import PollResponse, ResponseType
+    from deepproto.proto.tracepoint.v1.tracepoint_pb2 import TracePointConfig as PB, SnapshotResponse
+    how = desc['how']
+    pre = (fa if desc['sys'] else None, fb if desc['thr'] else None)
+    saved = (sys.gettrace(), threading.gettrace())
+    name = lambda f: getattr(f, '__name__', f) if getattr(f, '__self__', None) is None else 'agent'      # noqa: E731
+    ctx.case()
+    ctx.nt(('lifecycle', how, desc['sys'], desc['thr']))
+    obs = {}
+    state = {'deep': None, 'again': False}
+
+    def poll(req, md):
+        if how == 'reentrant-start' and not state['again']:
+            state['again'] = True
+            try:
+                state['deep'].start()          # what a signal handler does that arrives while start() waits for its first poll
+            except BaseException as e:
+                obs['inner_start_exc'] = e
+        if how == 'restart-same-agent' and req.current_hash == 'h1':
+            return PollResponse(ts_nanos=1, current_hash='h1', response_type=ResponseType.NO_CHANGE)       # a faithful service: you have it already
+        return PollResponse(ts_nanos=1, current_hash='h1', response_type=ResponseType.UPDATE,
+                            response=[PB(ID='t', path='c14life.py', line_number=0, args={'fire_count': '-1', 'fire_period': '0', 'method_name': 'job',
+                                                                                        'stage': 'method_capture'})])
+    chan = rig.FakeChannel(poll_handler=poll, send_handler=lambda r, m: SnapshotResponse())
+    ns, path = rig.load_program('c14life', 'def job(hook):\n    a = 1\n    hook()\n    b = a + 1\n    return b\ndef touch():\n    return 1\n')
+    label = f'{how}, hooks before: sys={name(pre[0])} threading={name(pre[1])}'
+    try:
+        with rig.DeepWorld(custom={}, channel=chan) as w:
+            w._trace = saved
+            d = state['deep'] = w.deep
+            sys.settrace(pre[0])
+            threading.settrace(pre[1])
+            try:
+                if how in ('two-agents-first-leaves-first', 'two-agents-second-leaves-first'):
+                    d2 = _second_deep(w)
+                    d.start()
+                    d2.start()
+                    first, second = (d, d2) if how == 'two-agents-first-leaves-first' else (d2, d)
+                    first.shutdown()
+                    live = second.trigger_handler
+                    obs['live_keeps_hooks'] = (getattr(sys.gettrace(), '__self__', None) is live, getattr(threading.gettrace(), '__self__', None) is live) \
+                        if how == 'two-agents-first-leaves-first' else None
+                    second.shutdown()
+                elif how == 'restart-inside-pending':
+                    d.start()
+                    t0 = time.time()
+                    while not d.trigger_handler._tp_config and time.time() - t0 < 10:
+                        time.sleep(0.001)
+
+                    def hook():
+                        d.shutdown()
+                        d.start()
+                    ns['job'](hook)
+                    d.shutdown()
+                    ns['touch']()
+                elif how == 'restart-same-agent':
+                    def settled():
+                        t1 = time.time()
+                        while len(d.trigger_handler._tp_config) < 2 and time.time() - t1 < 10:
+                            time.sleep(0.001)
+                    d.start()
+                    reg = d.register_tracepoint('c14life.py', 7, {'fire_count': '-1', 'fire_period': '0'})       # touch(): return 1
+                    settled()
+                    ns['job'](lambda: None)
+                    ns['touch']()
+                    d.shutdown()            # (drains the delivery)
+                    obs['sent_first'] = len(chan.sent())
+                    d.start()
+                    settled()
+                    ns['job'](lambda: None)
+                    ns['touch']()
+                    d.task_handler._pool.submit(lambda: None).result(5)
+                    t1 = time.time()
+                    while len(chan.sent()) < 2 * obs['sent_first'] and time.time() - t1 < 3:
+                        time.sleep(0.005)
+                    obs['sent_second'] = len(chan.sent()) - obs['sent_first']
+                    obs['reported'] = [c[1].current_hash for c in chan.polls()]
+                    d.shutdown()
+                    ns['touch']()
+                elif how == 'restart-from-another-thread':
+                    d.start()
+
+                    def other():
+                        d.shutdown()
+                        d.start()
+                        d.shutdown()
+                    t = threading.Thread(target=other, name='host-restarter')
+                    t.start()
+                    t.join(30)
+                    ns['touch']()
+                else:
+                    try:
+                        d.start()
+                    except BaseException as e:
+                        obs['outer_start_exc'] = e
+                    obs['started'] = d.started
+                    d.shutdown()
+                    ns['touch']()
+            except BaseException as e:
+                obs['raised'] = e
+            obs['after'] = (sys.gettrace(), threading.gettrace())
+    finally:
+        sys.settrace(saved[0])
+        threading.settrace(saved[1])
+    ctx.outcome(('lifecycle', how, name(obs.get('after', (None, None))[0]), name(obs.get('after', (None, None))[1])))
+    if 'raised' in obs or 'outer_start_exc' in obs or 'inner_start_exc' in obs:
+        e = obs.get('raised') or obs.get('outer_start_exc') or obs.get('inner_start_exc')
+        ctx.violation(f'C14/lifecycle/{how}/raised/{type(e).__name__}', f'{label}: {e!r}', desc)
+    elif obs.get('live_keeps_hooks') not in (None, (True, True)):
+        ctx.violation(f'C14/lifecycle/{how}/live-agent-loses-its-hooks', f'{label}: the first agent was shut down while the second is live: the second agent\'s function is installed as '
+                      f'(sys, threading) hook: {obs["live_keeps_hooks"]}', desc)
+    elif obs['after'][0] is not pre[0] or obs['after'][1] is not pre[1]:
+        ctx.violation(f'C14/lifecycle/{how}/hooks-not-restored', f'{label}: after the last shutdown sys={name(obs["after"][0])} threading={name(obs["after"][1])}', desc)
+    elif how == 'restart-same-agent' and (obs.get('sent_first') != 2 or obs.get('sent_second') != 2):
+        ctx.violation('C14/lifecycle/restart-same-agent/tracepoints-not-acting-after-restart', f'{label}: a service tracepoint and a registered one, each hit once per run: '
+                      f'{obs.get("sent_first")} snapshots before shutdown(); start(), {obs.get("sent_second")} after (hashes the polls reported: {obs.get("reported")})', desc)
+    elif how == 'reentrant-start' and obs.get('started') is not True:
+        ctx.violation(f'C14/lifecycle/{how}/not-started', f'{label}: started={obs.get("started")}', desc)
+
+
 def overlap_case(ctx, desc):
     """Thread A is inside start() (parked where the plugin's resource is asked for) when thread B calls start() or shutdown(). Whatever the
     order they are served in: afterwards one poll timer exists while started, and after a final shutdown nothing polls and the
@@ -374,6 +508,8 @@ def run_case(ctx, desc):
         return threads_case(ctx, desc)
     if desc['k'] == 'recycled':
         return recycled_case(ctx, desc)
+    if desc['k'] == 'lifecycle':
+        return lifecycle_case(ctx, desc)
     if desc['k'] == 'overlap':
         return overlap_case(ctx, desc)
     faults = [desc['fault']] if 'fault' in desc else FAULTS
